@@ -184,7 +184,8 @@ def run(ctx):
     ctx.floor('R3', 'finder x node pairs', npairs, 300)
     # pre-order of FindNodes.visit_Node: append precedes the descent
     fn = m.get_function('loki/ir/find.py', 'FindNodes.visit_Node')
-    app = [n.lineno for n in ast.walk(fn.node) if isinstance(n, ast.Call) and X.dotted_attr(n.func) == 'ret.append']
+    rn = (X.names_assigned_from(fn.node, "kwargs.pop('ret'") or ['ret'])[0]
+    app = [n.lineno for n in ast.walk(fn.node) if isinstance(n, ast.Call) and X.dotted_attr(n.func) == f'{rn}.append']
     loops = [n.lineno for n in ast.walk(fn.node) if isinstance(n, ast.For)
              and 'children' in {a.attr for a in ast.walk(n.iter) if isinstance(a, ast.Attribute)}]
     ok = bool(app) and bool(loops) and min(app) < min(loops)
